@@ -81,7 +81,8 @@ def get_version(line: str) -> Version:
                 version = ml.Value
                 return version
 
-        except MatchError:
+        except (MatchError, ValueError):
+            # not an info line, or an attribute this version's table does not know
             pass
 
     return version
